@@ -131,7 +131,8 @@ impl SetSketchParams {
         //
         log::debug!("b_inf : {:.5e}, b_aux : {:.3e}", b_inf, b_aux);
         //
-        assert!(jac >= 1. || jinf <= jsup);
+        // when b is near 1. and jac near 1. the real gap between the bounds is smaller than rounding errors, so we order them instead of asserting
+        let jinf = jinf.min(jsup);
         //
         (jinf, jsup)
     }
